@@ -202,6 +202,9 @@ INC = ['tmp:inc:mod', 'tmp:inc:ffi', 'tmp:inc:lib']
 ITRACE = ['tmp:calls:import', 'tmp:arg:import:name', 'tmp:arg:import:ret', 'tmp:calls:getattr', 'tmp:arg:getattr:obj',
           'tmp:arg:getattr:ret', 'tmp:arg:getattr:is_ffi'] + INC
 R.inline = set(R.inline) | {'PyTuple_SET_ITEM', '_PyTuple_CAST'}
+R.word_derefs = {'const char *const *': 'words.names'}        # the NULL-terminated `_cffi_includes[]` list of a module
+NAMES = 'words.names:0:64'
+KEEP2 = KEEP + ('words.names',)
 
 
 @R.model('PyTuple_New', "a new tuple of n members, all NULL (allocation succeeds: A-ALLOC)")
@@ -218,7 +221,7 @@ def _tuple_new(ex, st, args, n):
 def _import(ex, st, args, n):
     r = ex.fresh('module', B64)
     e = ex.fresh('err_import', B64)
-    st.havoc('import', raw=False, fields=True, ghost=False, keep_records=ex.record_names(KEEP))
+    st.havoc('import', raw=False, fields=True, ghost=False, keep_records=ex.record_names(KEEP2))
     st.assume(z3.Implies(r == 0, e != 0))
     st.err = z3.If(r == 0, e, st.err)
     st.ghost['tmp:calls:import'] = g(st, 'tmp:calls:import') + 1
@@ -259,8 +262,7 @@ class make_included_tuples(Contract):
     name = 'make_included_tuples'
 
     def names(self, c, st, j):
-        a = c['ctx_includes'] + 8 * j
-        return c.raw(st, a, 8)
+        return z3.Select(st.heap(NAMES), c['ctx_includes'] + 8 * j)
 
     def pre(self, c):
         st = c.old
@@ -272,13 +274,19 @@ class make_included_tuples(Contract):
                         z3.Or(z3.ULE(c['included_ffis'] + 8, c['included_libs']), z3.ULE(c['included_libs'] + 8, c['included_ffis'])))),
                 ('the include list is NULL or n names followed by NULL, apart from the two slots',
                  z3.Implies(inc != 0, z3.And(n >= 0, n < BV(1 << 16, 64), c.valid(inc, 8 * n + 8), self.names(c, st, n) == 0,
-                                             z3.ForAll([JQ], z3.Implies(z3.And(JQ >= 0, JQ < n), self.names(c, st, JQ) != 0)),
                                              z3.Or(z3.ULE(inc + 8 * n + 8, c['included_ffis']), z3.ULE(c['included_ffis'] + 8, inc)),
                                              z3.Or(z3.ULE(inc + 8 * n + 8, c['included_libs']), z3.ULE(c['included_libs'] + 8, inc))))),
+                # (a quantified fact: an obligation for callers; the body uses the instances named in the invariants)
+                ('none of the n names is NULL',
+                 z3.Implies(inc != 0, z3.ForAll([JQ], z3.Implies(z3.And(JQ >= 0, JQ < n), self.names(c, st, JQ) != 0))), 'callers'),
                 ('no-pending-exception', st.err == 0)]
 
     def frame(self, c):
         return Frame(all_raw=True, all_fields=True, err=True, trace=ITRACE)
+
+    def inst(self, c, j):
+        """instance at j of the callers' fact 'none of the n names is NULL'"""
+        return z3.Implies(z3.And(c['ctx_includes'] != 0, j >= 0, j < self.n), self.names(c, c.old, j) != 0)
 
     def _inv1(self, c, st):
         num = c.local(st, 'num')
@@ -291,19 +299,21 @@ class make_included_tuples(Contract):
         ffis = c.raw(st, c['included_ffis'], 8)
         libs = c.raw(st, c['included_libs'], 8)
         e0 = getattr(c, 'entry', st)
+        nc = c.local(e0, 'num') if 'entry' in c.__dict__ else num
         return [('the j-th name is being handled', z3.And(num >= 0, num <= self.n, p == c['ctx_includes'] + 8 * num)),
                 ('one import per name so far, no exception', z3.And(g(st, 'tmp:calls:import') == g(c.old, 'tmp:calls:import') + num, st.err == 0)),
                 ('the two tuples', z3.And(ffis == c.raw(e0, c['included_ffis'], 8), libs == c.raw(e0, c['included_libs'], 8), ffis != 0, libs != 0,
-                                          c.field(st, ffis, 'PyVarObject', 'ob_size') == self.n, c.field(st, libs, 'PyVarObject', 'ob_size') == self.n)),
-                ('the include list is as at entry', z3.And(self.names(c, st, self.n) == 0,
-                                                           z3.Implies(z3.And(J >= 0, J < self.n), self.names(c, st, J) == self.names(c, c.old, J)))),
+                                          c.field(st, ffis, 'PyVarObject', 'ob_size') == self.n, c.field(st, libs, 'PyVarObject', 'ob_size') == self.n,
+                                          z3.ULT(ffis, BV(1 << 47, 64)), z3.ULT(libs, BV(1 << 47, 64)),
+                                          z3.Or(z3.ULE(ffis + 24 + 8 * self.n, libs), z3.ULE(libs + 24 + 8 * self.n, ffis))),
+                 [self.inst(c, c.field(st, ffis, 'PyVarObject', 'ob_size'))]),
                 ('member J of both tuples, if already handled: the ffi and the lib of the module imported for name J',
                  z3.Implies(z3.And(J >= 0, J < num),
                             z3.And(z3.Select(st.heap(ITEMS), ffis + 24 + 8 * J) == z3.Select(g(st, 'tmp:inc:ffi'), J),
                                    z3.Select(st.heap(ITEMS), libs + 24 + 8 * J) == z3.Select(g(st, 'tmp:inc:lib'), J),
                                    z3.Select(g(st, 'tmp:inc:ffi'), J) != 0, z3.Select(g(st, 'tmp:inc:lib'), J) != 0)))]
 
-    loops = property(lambda self: {0: LoopSpec(invariant=self._inv1), 1: LoopSpec(invariant=self._inv2, trace=ITRACE)})
+    loops = property(lambda self: {0: LoopSpec(invariant=self._inv1), 1: LoopSpec(invariant=self._inv2, trace=ITRACE, keep_records=('words.names',))})
 
     def post(self, c):
         st0, st1 = c.old, c.new
@@ -315,17 +325,16 @@ class make_included_tuples(Contract):
                 ('success: two tuples of n members, one import per name',
                  z3.Implies(z3.And(inc != 0, ok), z3.And(ffis != 0, libs != 0, c.field(st1, ffis, 'PyVarObject', 'ob_size') == self.n,
                                                          c.field(st1, libs, 'PyVarObject', 'ob_size') == self.n,
-                                                         g(st1, 'tmp:calls:import') == g(st0, 'tmp:calls:import') + self.n, st1.err == 0))),
+                                                         g(st1, 'tmp:calls:import') == g(st0, 'tmp:calls:import') + self.n, st1.err == 0)),
+                 [self.inst(c, g(st1, 'tmp:calls:import') - g(st0, 'tmp:calls:import'))]),
                 ('success: member J of the two tuples is the ffi / the lib attribute of the J-th imported module -- the included '
                  'modules\' own objects, in the order of the include list',
                  z3.Implies(z3.And(inc != 0, ok, J >= 0, J < self.n),
                             z3.And(z3.Select(st1.heap(ITEMS), ffis + 24 + 8 * J) == z3.Select(g(st1, 'tmp:inc:ffi'), J),
-                                   z3.Select(st1.heap(ITEMS), libs + 24 + 8 * J) == z3.Select(g(st1, 'tmp:inc:lib'), J)))),
+                                   z3.Select(st1.heap(ITEMS), libs + 24 + 8 * J) == z3.Select(g(st1, 'tmp:inc:lib'), J))),
+                 [self.inst(c, g(st1, 'tmp:calls:import') - g(st0, 'tmp:calls:import'))]),
                 ('failure: -1 with an exception, and both slots are NULL again',
                  z3.Implies(z3.Not(ok), z3.And(c.result == BV(-1, 32), st1.err != 0, ffis == 0, libs == 0)))]
 
 
-# NOT part of the check: four of this contract's obligations (byte-level reasoning about the NULL-terminated include list
-# under a quantified hypothesis) are left undecided by both solvers in budget, so nothing is claimed about
-# make_included_tuples; kept for a later round.
-# C34_FUNCS.append('make_included_tuples')
+C34_FUNCS.append('make_included_tuples')
